@@ -3,7 +3,7 @@ scratch copy outside /repo and /verif, removed afterwards) and makes sure the
 Coq development and the extracted model driver are built."""
 import hashlib, os, shutil, subprocess, sys, tempfile, time
 
-VERIF = os.environ.get("VERIF_ROOT", "/verif")
+VERIF = os.environ.get("VERIF_ROOT") or os.path.abspath(os.path.join(os.path.dirname(os.path.abspath(__file__)), "..", "..", ".."))
 REPO = os.environ.get("VERIF_REPO", "/repo")
 CACHE = os.path.join(VERIF, ".cache")
 GOENV = dict(os.environ, GOPROXY="off", GOSUMDB="off", GOTOOLCHAIN="local", GOFLAGS="", CGO_ENABLED=os.environ.get("CGO_ENABLED", "1"))
